@@ -17,7 +17,7 @@ ops
   diff <castorIdHex> <count> <workingMiners>
   block <height> <p004> <flags6> <fee> <feeacct> S <p010 0|1> <p019 0|1> <p025Block|x> <castorIdHex> <reward|x> <ntx> tx*
       tx = <hash> <req> <nonce> <typ> <srcStrHex> <src> <feeAddr> <srcNumHex> body
-      body = e | j <datahex> | t <n> (<keyhex> <addr> <amt|x>)* | r <amount|x> <minerIdHex> | a <minerIdHex> <delta>
+      body = e | j <datahex> | t <n> (<keyhex> <addr> <amt|x>)* | r <amount|x> <minerIdHex> | a <minerIdHex> <delta> | p <minerIdHex> <typ> <stake> <hasPk> <hasVrf> <account|-> | c <minerIdHex> <account|->
              | o <ok> <evicted> <msghex> <k> (<addr> <bal> <nonce>)*      (observed effect of an EVM transaction)
       reward = x | <nextHeight> <castor> <share> <np> pairs <nv> pairs | F <totalBits> <rewardBlocks> <castorIdHex> <x | n ids>
   ca <src> <n> (<keyhex> <addr> <amt|x>)*
@@ -48,7 +48,9 @@ def hex20 (n : Nat) : String := toHex (padLeft 20 (natToBE n))
 def dump (d : DS) (s : St) : String :=
   let a := d.watch.map (fun x => hex20 x ++ ":" ++ toString (s.bal x) ++ ":" ++ toString (s.nonce x))
   let e := d.wesc.map (fun (h, i) => toString h ++ ":" ++ hex20 i ++ ":" ++ toString (s.escrow h i))
-  let m := s.miners.map (fun r => toString r.id ++ ":" ++ toString r.typ ++ ":" ++ toString r.stake ++ ":"
+  -- registry in a canonical order (id, type); entries created and removed again inside the block leave nothing behind
+  let recs := (s.miners.filter (fun r => r.inParent || r.alive)).mergeSort (fun a b => a.id < b.id || (a.id == b.id && a.typ ≤ b.typ))
+  let m := recs.map (fun r => toString r.id ++ ":" ++ toString r.typ ++ ":" ++ toString r.stake ++ ":"
     ++ (if r.hasAccount then hex20 r.account else "-") ++ ":" ++ toString r.status ++ ":" ++ (if r.alive then "1" else "0"))
   "st=" ++ ",".intercalate a ++ " esc=" ++ ",".intercalate e ++ " mi=" ++ ",".intercalate m
 
@@ -94,6 +96,18 @@ def body? : List String → Option (Body × List String)
     let amt ← (if a == "x" then some none else (nat? a).map some)
     let id ← hexNat? i
     pure (.refund amt id, r)
+  | "p" :: i :: t :: st :: pk :: vrf :: ac :: r => do
+    let id ← hexNat? i
+    let t ← nat? t
+    let st ← nat? st
+    let pk ← (if pk == "1" then some true else if pk == "0" then some false else none)
+    let vrf ← (if vrf == "1" then some true else if vrf == "0" then some false else none)
+    let ac ← (if ac == "-" then some none else (addr? ac).map some)
+    pure (.apply id t st pk vrf ac, r)
+  | "c" :: i :: ac :: r => do
+    let id ← hexNat? i
+    let ac ← (if ac == "-" then some none else (addr? ac).map some)
+    pure (.changeAccount id ac, r)
   | "a" :: i :: dl :: r => do
     let id ← hexNat? i
     let dl ← nat? dl
